@@ -378,6 +378,24 @@ def option_map(eng, st, site, func, target, args, dty):
     return out
 
 
+@stub(r"^std::option::Option::<T>::(as_ref|as_mut)$")
+def option_as_ref(eng, st, site, func, target, args, dty):
+    a = args[0]
+    if not isinstance(a, VRef):
+        return None
+    v = eng.load(st, a.cell, a.path)
+    if isinstance(v, VUnknown) and v.ty is not None:
+        v = eng.symval(st, v.ty, v.name or eng.fresh("u"))
+        eng.store(st, a.cell, a.path, v)
+    out = []
+    for s2, vi, fs in split_variants(eng, st, v):
+        if vi == 1:
+            out.append((s2, mk_option(eng, dty, True, VRef(a.cell, a.path + (("f", 1, 0),), a.mut))))
+        else:
+            out.append((s2, mk_option(eng, dty, False)))
+    return out
+
+
 @stub(r"^std::option::Option::<T>::(is_some|is_none)$")
 def option_is_some(eng, st, site, func, target, args, dty):
     v, loc = deref(eng, st, args[0], 2)
